@@ -50,6 +50,22 @@ def rand_decl(rng):
         if not any(v["fmt"][-1] in "qQ" for v in d["hash"]["vars"]):   # a cell that can take any 8-byte value
             f = rng.choice("qQ")
             d["hash"]["vars"].append(dict(name=f"h{len(d['hash']['vars'])}", fmt=f, default=mapdecl.rand_value(rng, f)))
+    if d["hash"]:
+        # where the hash variables (and the HashMap itself) are declared: in the program class, in a base class
+        # it inherits from, partly in each, or in a base class with two subclasses that both get instantiated
+        hv = d["hash"]["vars"]
+        kind = rng.choice(["own", "own", "own", "base", "base", "extend", "extend", "siblings", "siblings"])
+        if kind in ("extend", "siblings") and len(hv) < 2:
+            kind = "base"
+        split = dict(kind=kind)
+        if kind in ("extend", "siblings"):
+            split["nbase"] = rng.randint(1, len(hv) - 1)
+        if kind == "siblings":
+            split["sib"] = [dict(name=f"g{i}", fmt=f, default=mapdecl.rand_value(rng, f))
+                            for i, f in enumerate(rng.choice("bBhHiIqQ") for _ in range(rng.randint(1, 2)))]
+            split["sib_first"] = rng.random() < 0.5          # order of the two class bodies
+            split["sib_loaded_first"] = rng.random() < 0.5   # order in which the two are instantiated and loaded
+        d["hash"]["split"] = split
     outs = [dict(name=f"o{i}", fmt="q") for i in range(NOUT)]
     # the other memory a program copies hash variables and Dict members from and to: array-map variables and
     # local (stack) variables of EVERY width and byte order - 8-byte ones with a byte order as often as the rest
@@ -299,6 +315,46 @@ def struct_items(inst, built, names):
     return items
 
 
+def sibling_part(rng, backend, decl, built, meta):
+    """the second subclass of the common base class: an instance of its own, loaded; every hash variable it can
+    name (inherited ones and its own) must hold its default and keep what Python writes.  A trace of its own."""
+    split = decl["hash"]["split"]
+    hv = decl["hash"]["vars"][:split["nbase"]] + split["sib"]
+    D = dict(avars=[], ncpu=backend.ncpu, lvars=[], dicts=[], prog=[],
+             hvars=[dict(c=v["fmt"][-1], **{"def": M.word(v["default"])}) for v in hv])
+    ev = []
+    smeta = dict(ident=meta["ident"] + "/sibling", decl=decl, stmts=[], trace=dict(decl=D, ev=ev), built=False,
+                 mode=backend.mode, sibling=True)
+    meta["sibling_meta"] = smeta
+    try:
+        sess = backend.create(lambda: built.sibling())
+    except Exception as e:                       # noqa: a result
+        smeta["build_error"] = f"{type(e).__name__}: {str(e)[-500:]}"
+        ev.append(M.event("run", res="build failed: " + type(e).__name__))
+        return
+    smeta["built"] = True
+    try:
+        for round_ in range(2):
+            for i, v in enumerate(hv):
+                try:
+                    got = getattr(sess.inst, v["name"])
+                    ok = isinstance(got, int) and not isinstance(got, bool) and abs(got) < 1 << 70
+                    ev.append(M.event("pyread_h", id=i + 1, v=M.word(got)) if ok else
+                              M.event("pyread_h", id=i + 1, res="not a value of the format"))
+                except Exception as e:           # noqa
+                    ev.append(M.event("pyread_h", id=i + 1, res=M.exc_name(e)))
+            if round_ == 0:
+                for i, v in enumerate(hv):
+                    n = mapdecl.rand_value(rng, v["fmt"])
+                    try:
+                        setattr(sess.inst, v["name"], n)
+                        ev.append(M.event("pywrite_h", id=i + 1, v=M.word(n)))
+                    except Exception as e:       # noqa
+                        ev.append(M.event("pywrite_h", id=i + 1, v=M.word(n), res=M.exc_name(e)))
+    finally:
+        sess.close()
+
+
 def history(rng, backend, decl, nops, meta):
     from ebpfcat.xdp import XDP
     names = Names(decl)
@@ -312,11 +368,18 @@ def history(rng, backend, decl, nops, meta):
     ev = []
     meta.update(decl=decl, stmts=stmts, trace=dict(decl=D, ev=ev), built=False, mode=backend.mode)
     sess = None
+    split = (decl["hash"] or {}).get("split") or dict(kind="own")
     try:
         from ebpfcat.ebpf import LocalVar
+        from ebpfcat.xdp import XDPExitCode
         built = mapdecl.build(decl, base=XDP, program=emitter(names, stmts), name="Prog",
-                              extra={n: LocalVar(f) for n, f in names.lvars})
+                              extra={n: LocalVar(f) for n, f in names.lvars},
+                              sibling_program=lambda self: self.exit(XDPExitCode.PASS))
+        if built.sibling is not None and split["sib_loaded_first"]:
+            sibling_part(rng, backend, decl, built, meta)
         sess = backend.create(lambda: built.cls())
+        if built.sibling is not None and not split["sib_loaded_first"]:
+            sibling_part(rng, backend, decl, built, meta)
         inst = sess.inst
         inst._c09_maps = sess.b.maps
     except Exception as e:                       # noqa: cannot be built / loaded: a result
@@ -537,6 +600,7 @@ def run(ctx):
                                  stmts=req["stmts"]),
                             f"the machine and the kernel disagree on a run ({req['ident']}, rv {req['rv']}): machine {result['st']} "
                             f"{result['arr']} {result['hash']} kernel {req['expect']}")
+    metas += [m["sibling_meta"] for m in metas if "sibling_meta" in m]
     rejects = M.validate(ctx, wd, [m["trace"] for m in metas])
     opsseen = {}
     for ti, m in enumerate(metas):
@@ -558,7 +622,8 @@ def run(ctx):
                         event=dict(op=e["op"], id=e["id"], res=e["res"], k=M.unwords(e["k"]), v=M.unwords(e["v"]),
                                    items=[[M.unwords(x["k"]), M.unwords(x["v"])] for x in e["items"]]
                                    if e["op"] != "structs" else e["items"]),
-                        fmt=event_fmt(m["decl"], e),
+                        fmt=event_fmt(m["decl"], e, m.get("sibling", False)),
+                        split=(m["decl"]["hash"] or {}).get("split"), sibling=m.get("sibling", False),
                         prev=[[x["op"], x["id"], x["res"], M.unwords(x["k"])] for x in evs[max(0, idx - 3):idx]],
                         prev_all=[[x["op"], x["id"], x["res"]] for x in evs[:idx]],
                         const_to_hash=has_stmt(m["stmts"], lambda s: s["op"] == "const" and s["dst"]["k"] == "h"),
@@ -586,9 +651,12 @@ def show_stmt(s):
     return dict(op=s["op"], dst=l(s["dst"]), src=l(s["src"]), k=s["k"])
 
 
-def event_fmt(decl, e):
+def event_fmt(decl, e, sibling=False):
     if e["op"] in ("pyread_h", "pywrite_h"):
-        return decl["hash"]["vars"][e["id"] - 1]["fmt"]
+        hv = decl["hash"]["vars"]
+        if sibling:
+            hv = hv[:decl["hash"]["split"]["nbase"]] + decl["hash"]["split"]["sib"]
+        return hv[e["id"] - 1]["fmt"]
     if e["op"] in ("pyread_a", "pywrite_a"):
         return decl["arrays"][0]["vars"][e["id"] - 1]["fmt"]
     return None
@@ -687,6 +755,15 @@ def pred_ordered_hash(case, reason=None):
             for s in flat(case["stmts"]))
 
 
+def pred_inherited_hash(case, reason=None):
+    """hash variables declared in a base class of the instantiated class: HashMap.load looks every variable up in
+    `ebpf.__class__.__dict__` (KeyError for an inherited one), HashMap.init does getattr(ebpf, name) for the
+    variables of ALL subclasses sharing the map (AttributeError for a sibling's)"""
+    split = case.get("split") or {}
+    return case["part"] == "history" and split.get("kind") in ("base", "extend", "siblings") \
+        and case["event"]["op"] == "run" and (case.get("build_error") or "").startswith(("KeyError", "AttributeError"))
+
+
 def pred_f3(case, reason=None):
     """fixed-point result variable one unit closer to zero (F3 of C02 / C08)"""
     if case["part"] != "history" or case["fmt"] != "x" or case["event"]["op"] != "pyread_a":
@@ -704,7 +781,8 @@ def classify(ctx):
                ("constant assigned to a hash variable in a program (AttributeError)", pred_const_to_hash),
                ("hash variable read while r0 is in use (after a Dict operation): program refused", pred_hash_read_r0_refused),
                ("F3 fixed-point truncation", pred_f3),
-               ("F10 x-format hash variable", pred_x_hash)]
+               ("F10 x-format hash variable", pred_x_hash),
+               ("hash variables inherited from a base class (HashMap.load / init)", pred_inherited_hash)]
     tally = {name: 0 for name, _ in classes}
     tally["not explained"] = 0
     shown = {}
